@@ -80,8 +80,8 @@ theorem build_kids_sound (s : XSent) (f : Option Str × Str → Option Tree) :
         rw [IsXKids]
         exact ⟨ih a (by simp) _ ha, build_kids_sound s f l bs' (fun x hx => ih x (by simp [hx])) hl⟩
 
-theorem tigerBuild_sound (s : XSent) (hlab : XLabelled s) : ∀ (fuel : Nat) (i : Str) (e : Option Str) (t : Tree),
-    tigerBuild s fuel i e = some t → IsXTree s i (some (e.getD DEFAULT_EDGE)) t := by
+theorem tigerBuild_sound (s : XSent) : ∀ (fuel : Nat) (i : Str) (e : Option Str) (t : Tree),
+    tigerBuild s fuel i e = some t → IsXTree s i e t := by
   intro fuel
   induction fuel with
   | zero => intro i e t h; simp [tigerBuild] at h
@@ -107,17 +107,14 @@ theorem tigerBuild_sound (s : XSent) (hlab : XLabelled s) : ∀ (fuel : Nat) (i 
         refine ⟨nt, hmem, ?_, rfl, build_kids_sound s _ nt.edges ks ?_ hks⟩
         · simpa using List.find?_some hn
         · intro a ha b hb
-          obtain ⟨l, hl⟩ := Option.isSome_iff_exists.1 (hlab nt hmem a ha)
-          have := ih _ _ _ hb
-          rw [hl] at this ⊢
-          exact this
+          exact ih _ _ _ hb
 
 /-! ### on a well-formed structure the builder succeeds -/
 
 theorem build_kids_complete (s : XSent) (fuel : Nat) :
     ∀ (es : List (Option Str × Str)),
-      (∀ e ∈ es, ∃ t, tigerBuild s fuel e.2 (some (e.1.getD "None".toList)) = some t) →
-      ∃ ks, es.mapM (fun (e : Option Str × Str) => tigerBuild s fuel e.2 (some (e.1.getD "None".toList))) = some ks
+      (∀ e ∈ es, ∃ t, tigerBuild s fuel e.2 e.1 = some t) →
+      ∃ ks, es.mapM (fun (e : Option Str × Str) => tigerBuild s fuel e.2 e.1) = some ks
   | [], _ => ⟨[], rfl⟩
   | a :: l, h => by
     obtain ⟨b, hb⟩ := h a (by simp)
@@ -281,7 +278,7 @@ theorem rank_bounded (s : XSent) (hres : ∀ r ∈ s.refs, r ∈ s.ids) (rk : St
 
 /-! ### the sentence reader on a well-formed structure -/
 
-theorem tigerSentence_XWF (o : InOpts) (s : XSent) (root : Str) (h : XWF s root) (hlab : XLabelled s) :
+theorem tigerSentence_XWF (o : InOpts) (s : XSent) (root : Str) (h : XWF s root) :
     ∃ d, IsXTree s root (some DEFAULT_EDGE) d ∧ tigerSentence o s = .ok (tigerPost o (vrootOf d)) := by
   obtain ⟨hn, hres, hrm, hrf, hone, rk0, hrk0⟩ := h
   obtain ⟨rk, hrk1, hrk2⟩ := rank_bounded s hres rk0 hrk0
@@ -310,8 +307,8 @@ theorem tigerSentence_XWF (o : InOpts) (s : XSent) (root : Str) (h : XWF s root)
       simp [hmem] at hp
     · rintro rfl
       simp [hrf]
-  obtain ⟨d, hd⟩ := tigerBuild_complete s rk hres hrk2 (s.ids.length + 2) root none hrm (by have := hrk1 root; omega)
-  refine ⟨d, tigerBuild_sound s hlab _ _ _ _ hd, ?_⟩
+  obtain ⟨d, hd⟩ := tigerBuild_complete s rk hres hrk2 (s.ids.length + 2) root (some DEFAULT_EDGE) hrm (by have := hrk1 root; omega)
+  refine ⟨d, tigerBuild_sound s _ _ _ _ hd, ?_⟩
   simp only [XSent.ids, XSent.refs] at h1 h2 h3 hd
   unfold tigerSentence
   simp only [h1, h3, hd]
